@@ -98,7 +98,7 @@ CHECKS = {
    design="4/C20"),
  "C19": dict(
    technique="Lean 4 model theorems (temporary file always removed, debug files only on request, destination untouched before checks) + strace/snapshot correspondence over all scenarios and path spellings",
-   text=("Proof: Grc.MainSM.tmp_removed, debug_only_if_requested, no_output_before_checks, failure_leaves_no_font over the stage-machine model. Tie: every scenario (success, each failure stage, five spellings "
+   text=("Proof: Grc.MainSM.tmp_removed, debug_only_if_requested, no_output_before_checks, failure_leaves_no_font over the stage-machine model. Tie: every scenario (success, each failure stage, sources / font / output in different directories, five spellings "
          "of an output path that aliases the input font: same string, ./, absolute, symbolic link, hard link) runs under strace; every write-open/unlink/rename must fall in the allowed set "
          "{output font, error file, requested debug files, temporary file}, /tmp and the working directory are snapshotted before/after, inputs are hashed, and a write fault in the middle of the "
          "font (RLIMIT_FSIZE) must leave nothing partial."),
@@ -108,10 +108,10 @@ CHECKS = {
    technique="Lean 4 theorems on the version ladder (constants regenerated from source) + strict decoding, LZ4 inflation, byte comparison and libgraphite2 shaping across the full option matrix of real builds",
    text=("Proof: Grc.Ver.declared_version_conforms / version_ge_requested — for every requested version, option set and class-map size the version computed by the model of CalculateSilfVersion "
          "(its thresholds re-extracted from OutputToFont.cpp on every run) is at least the format's minimum for compression (5.0), collision data (4.1), skip-passes attribute and long class "
-         "offsets (4.0); glat_gloc_switch_together. Tie: each generated program (every third one with passes under pass-level feature tests) is built for {default,-v2..-v5}x{plain,-c}x{with/without -p} and {-d,-D,verbose}: every build must pass the strict "
+         "offsets (4.0); glat_gloc_switch_together. Tie: each generated program (every third one with passes under pass-level feature tests, every fifth with a collision-fixing pass) is built for {default,-v2..-v5}x{plain,-c}x{with/without -p} and {-d,-D,verbose}: every build must pass the strict "
          "decoders (conformance to the layout of the version it declares), its declared Silf version must equal the Lean ladder, compressed Silf/Glat inflated by the Lean LZ4 decoder must equal "
          "the plain tables byte for byte, debug/verbose builds must be byte-identical to the default, and all builds must shape 40-150 texts identically through libgraphite2."),
-   note=TB + "LZ4 decoder is an executable Lean definition (partial def), not a proved one; the LZ4-HC compressor is validated per output only. Collision passes are not generated here (C20).",
+   note=TB + "LZ4 decoder is an executable Lean definition (partial def), not a proved one; the LZ4-HC compressor is validated per output only. ",
    design="4/C15"),
  "C10": dict(
    technique="Lean 4 specification of rule-level static rules evaluated on the IR + theorem on the class-recursion check + single-fault injection (faulty program and repaired twin) against the real compiler",
@@ -159,7 +159,7 @@ CHECKS = {
          "orderSettings_head/_mem/_length (default first, same settings). Tie: for generated feature and language tables over input fonts with different name tables and -n values the Lean driver "
          "checks on the real font: every declared id (main and hidden alternates) occurs once in Feat, default first, every label resolves in the Microsoft (and Unicode, when present) records to the "
          "declared string for each declared language, every label id in Feat has a record, new records use only fresh ids >= the model's first id, Sill maps each declared language to exactly the "
-         "declared values; the output is then recompiled and labels must be reused (no new records, same Feat)."),
+         "declared values; the output is then recompiled and labels must be reused (no new records, same Feat), and recompiled again with some labels reworded (English / other languages): every label must resolve to the string declared now."),
    note=TB + "Order of non-default settings is not fixed by the property. Macintosh-platform records are not examined.",
    design="4/C16"),
  "C17": dict(
@@ -168,7 +168,7 @@ CHECKS = {
          "all real glyphs) and strictly below the phantom glyph, ids are pairwise distinct and numIds = phantom + 1. Tie: the Lean driver parses the INPUT font (cmap 4/12, symbol subtable, post "
          "format 2, maxp), resolves every glyphid()/unicode()/U+/range/postscript() reference of the generated program (auto-pseudos for code points sharing a glyph), and requires of the real "
          "output: the FSM certified against exactly those class memberships (C02 theorem), the substitution data (C04), lbGID, maxGlyphID, the sorted duplicate-free Unicode-to-pseudo map and the "
-         "actualForPseudo attribute equal to the model; an unmapped code point must give error 4109 and no font, or be skipped under -g."),
+         "actualForPseudo attribute equal to the model; unmapped code points (single, runs in a list, ranges running off the mapped block) must give error 4109 and no font, or be skipped under -g."),
    note=TB + "cmap lookup is the format's linear-scan semantics (the compiler's binary search is validated against it, not proved). Explicit pseudo() definitions and non-ASCII codepoint() are not generated.",
    design="4/C17"),
  "C14": dict(
